@@ -21,7 +21,7 @@ Inductive case :=
                                            KeyEventBatch call went to the error channel). Not a failure-free run: nothing is promised beyond
                                            "nothing that was never produced, nothing twice, nothing at a wrong operator". A key-by call that
                                            fails WITHOUT the run failing leaves failed = false, so missing records fire code 10. *)
-     (bad : bool).                      (* overlapping calls to one operator, or the run exceeded the guard time *)
+     (bad : bool).                      (* overlapping calls to one operator *)
 
 Fixpoint list_eqb {A} (eqb : A -> A -> bool) (a b : list A) : bool :=
   match a, b with
